@@ -241,7 +241,7 @@ Definition spec_b (x : input) (o : outcome) : bool :=
   | Error e => refusal_ok_b x e
   end.
 
-(* ------------------------------------------------------------ the known finding classes (inputs) *)
+(* ------------------------------------------------------------ the two repaired finding classes (inputs) *)
 (* the identifier store holds nothing for this user under the qualifier in force *)
 Definition store_fresh (x : input) : Prop :=
   forall n, In n (stored x) -> n_spnq n <> Some (snq_of x).
@@ -249,12 +249,11 @@ Definition store_fresh (x : input) : Prop :=
 (* the request does not move the identifier into another namespace than the requester's own *)
 Definition own_namespace (x : input) : Prop := snq_of x = requester x.
 
-(* the guard under which the name-identifier clause is claimed: outside of it lies exactly the open finding
-   C09-F2 (no identifier supplied, no Format requested, and the store holds an identifier of that user for the
-   qualifier in force: it is re-used whatever its format).  C09-F1 (format looked up under the SPNameQualifier)
-   was repaired by d41562bb and is no longer excluded. *)
-Definition guard (x : input) : Prop :=
-  a_name_id (arg x) <> None \/ requested_format x <> None \/ store_fresh x.
+(* No guard is left: C09-F1 (format looked up under the SPNameQualifier; inputs outside own_namespace) was
+   repaired by d41562bb and C09-F2 (stored identifier re-used whatever its format; inputs outside store_fresh)
+   by 9a92c673.  Not part of the property text and therefore not of this spec: WHICH identifier of the right
+   format is used (a stored transient identifier of the format in force is handed out again: freshness is
+   C18's ground). *)
 
 (* ------------------------------------------------------------ end to end *)
 (* the receiving service provider is built from the same metadata, has sent the request, wants no more
